@@ -7,7 +7,9 @@ package c20
 
 import (
 	"context"
+	"encoding/binary"
 	"fmt"
+	"net"
 	"os"
 	"os/exec"
 	"path/filepath"
@@ -29,18 +31,73 @@ type activity struct {
 	prefix []string // events that leave the job parked at its begin gate
 	kind   string
 	conv   bool
+	// endpoint: a PCAP-over-IP endpoint served by the harness sends packets while the calls run
+	endpoint bool
+}
+
+// servePcapOverIP listens on a local port and streams the given capture file (global header,
+// then one record every few milliseconds, repeated) to every connection until stop is closed.
+func servePcapOverIP(file string, stop chan struct{}) (string, error) {
+	data, err := os.ReadFile(file)
+	if err != nil {
+		return "", err
+	}
+	if len(data) < 24 {
+		return "", fmt.Errorf("capture %s too short", file)
+	}
+	ln, err := net.Listen("tcp", "127.0.0.1:0")
+	if err != nil {
+		return "", err
+	}
+	go func() {
+		<-stop
+		ln.Close()
+	}()
+	go func() {
+		for {
+			c, err := ln.Accept()
+			if err != nil {
+				return
+			}
+			go func(c net.Conn) {
+				defer c.Close()
+				if _, err := c.Write(data[:24]); err != nil {
+					return
+				}
+				for round := 0; round < 200; round++ {
+					for off := 24; off+16 <= len(data); {
+						n := int(binary.LittleEndian.Uint32(data[off+8:]))
+						if off+16+n > len(data) {
+							break
+						}
+						if _, err := c.Write(data[off : off+16+n]); err != nil {
+							return
+						}
+						off += 16 + n
+						select {
+						case <-stop:
+							return
+						case <-time.After(3 * time.Millisecond):
+						}
+					}
+				}
+			}(c)
+		}
+	}()
+	return ln.Addr().String(), nil
 }
 
 var activities = []activity{
-	{"import body", []string{"api:import:P1"}, "import", false},
-	{"second import body with indexes present", []string{"api:import:P1", "drain", "api:addtag:tag/d=cdata:foo", "drain", "api:import:P3"}, "import", false},
-	{"tagging job body", []string{"api:import:P1", "drain", "api:addtag:tag/d=cdata:foo"}, "tag", false},
-	{"tagging job body of an id-only tag", []string{"api:import:P1", "drain", "api:addtag:tag/d=id:0,1"}, "tag", false},
-	{"tagging job body of a tag referring to a mark", []string{"api:import:P1", "drain", "api:addtag:mark/m=id:0", "drain", "api:addtag:tag/d=mark:m"}, "tag", false},
-	{"tagging job body of a data tag next to a finished port tag", []string{"api:import:P1", "drain", "api:addtag:tag/p=cport:1", "drain", "api:addtag:tag/d=cdata:foo"}, "tag", false},
-	{"merge job body", []string{"api:import:P1", "drain", "api:import:P2", "step:import", "step:import"}, "merge", false},
-	{"conversion job body", []string{"api:import:P1", "drain", "api:addtag:tag/p=cport:1", "drain", "api:converters:tag/p=conv"}, "convert", true},
-	{"tag-update ticker with pending signals", []string{"api:import:P1", "drain", "api:addtag:tag/d=cdata:foo", "drain", "api:color:tag/d=#111111"}, "", false},
+	{"import body", []string{"api:import:P1"}, "import", false, false},
+	{"second import body with indexes present", []string{"api:import:P1", "drain", "api:addtag:tag/d=cdata:foo", "drain", "api:import:P3"}, "import", false, false},
+	{"tagging job body", []string{"api:import:P1", "drain", "api:addtag:tag/d=cdata:foo"}, "tag", false, false},
+	{"tagging job body of an id-only tag", []string{"api:import:P1", "drain", "api:addtag:tag/d=id:0,1"}, "tag", false, false},
+	{"tagging job body of a tag referring to a mark", []string{"api:import:P1", "drain", "api:addtag:mark/m=id:0", "drain", "api:addtag:tag/d=mark:m"}, "tag", false, false},
+	{"tagging job body of a data tag next to a finished port tag", []string{"api:import:P1", "drain", "api:addtag:tag/p=cport:1", "drain", "api:addtag:tag/d=cdata:foo"}, "tag", false, false},
+	{"merge job body", []string{"api:import:P1", "drain", "api:import:P2", "step:import", "step:import"}, "merge", false, false},
+	{"conversion job body", []string{"api:import:P1", "drain", "api:addtag:tag/p=cport:1", "drain", "api:converters:tag/p=conv"}, "convert", true, false},
+	{"PCAP-over-IP endpoint receiving packets", []string{"api:import:P1", "drain", "api:addtag:tag/d=cdata:foo", "drain"}, "", false, true},
+	{"tag-update ticker with pending signals", []string{"api:import:P1", "drain", "api:addtag:tag/d=cdata:foo", "drain", "api:color:tag/d=#111111"}, "", false, false},
 }
 
 type call struct {
@@ -241,6 +298,25 @@ func Child(idx int) int {
 		}
 		drain()
 	} else {
+		if act.endpoint {
+			// the endpoint's reader goroutine updates its counters while the calls list them; the
+			// flush worker turns the packets into captures and imports them, whose jobs run free
+			stopSrv := make(chan struct{})
+			defer close(stopSrv)
+			addr, err := servePcapOverIP(filepath.Join(w.Staging, "P4.pcap"), stopSrv)
+			if err != nil {
+				mc.Fatal("%v", err)
+			}
+			w.FreeRun()
+			if err := w.Mgr.AddPcapOverIPEndpoint(addr); err != nil {
+				mc.Fatal("%v", err)
+			}
+			for i := 0; i < 6; i++ {
+				time.Sleep(200 * time.Millisecond)
+				w.Mgr.ListPcapOverIPEndpoints()
+			}
+			w.Mgr.DelPcapOverIPEndpoint(addr)
+		}
 		time.Sleep(1300 * time.Millisecond) // one period of the 1 s ticker
 	}
 	close(stop)
